@@ -3,20 +3,22 @@
 # its property (and, when that does not report it, the checks listed as alternates), reverts, and records the outcome
 # in seeded/<id>/meta.json (detected_by).  /repo must be clean; nothing else may use /repo while this runs.
 cd /verif
+R=${VERIF_REPO:-/repo}    # the tree the seeds are applied to and the checks run against (a scratch worktree while /repo is busy)
+export VERIF_REPO=$R
 declare -A ALT=( [C03d]="C12" [C03e]="C12" [C11f]="C12" [C07f]="C10" [C03b]="C12" [C07d]="C10" [C01a]="C02" [C02b]="C01" [C02a]="C13" [C07b]="C03" [C12a]="C12" [C10b]="" [C06b]="" )
 IDS=${@:-$(ls seeded)}
 for id in $IDS; do
   P=${id:0:3}
   [ -f seeded/$id/patch.diff ] || continue
-  if [ -n "$(git -C /repo status --porcelain)" ]; then echo "/repo not clean"; exit 2; fi
-  if ! git -C /repo apply /verif/seeded/$id/patch.diff 2>/dev/null; then echo "$id: patch does not apply"; python3 tools/seedmeta.py $id "patch no longer applies to the current HEAD"; continue; fi
+  if [ -n "$(git -C $R status --porcelain)" ]; then echo "/repo not clean"; exit 2; fi
+  if ! git -C $R apply /verif/seeded/$id/patch.diff 2>/dev/null; then echo "$id: patch does not apply"; python3 tools/seedmeta.py $id "patch no longer applies to the current HEAD"; continue; fi
   res=""
   for c in $P ${ALT[$id]}; do
     out=$(timeout 1800 ./check $c quick 2>&1); rc=$?
     if [ $rc -eq 1 ] && echo "$out" | grep -q "^VIOLATION property=$c"; then res="detected by ./check $c quick: $(echo "$out" | grep '^violation:' | head -1 | cut -c1-160)"; break; fi
     res="$res[$c quick exit=$rc] "
   done
-  git -C /repo checkout -- . ; git -C /repo clean -fdq -- internal cmd >/dev/null 2>&1
+  git -C $R checkout -- . ; git -C $R clean -fdq -- internal cmd >/dev/null 2>&1
   case "$res" in detected*) ;; *) res="NOT detected: $res";; esac
   echo "$id: $res" | cut -c1-260
   python3 tools/seedmeta.py $id "$res"
